@@ -351,6 +351,59 @@ func GenSession(prop string, seed uint64, thorough bool) *Scenario {
 			}
 			c.UpgradeAtMs = g.pick(0, 1, 10, 50, 100, 300, sc.HorizonMs/2)
 		}
+		// C08: a scripted (non-conformant or unusual) upgrade candidate, alone, or next to the conformant
+		// upgrade (second candidate while the first is being entertained), optionally followed by a
+		// conformant retry once the failed candidate is out of the way
+		if c.Transport == "polling" && (wsOK || wtOK) && o.AllowUpgrades && g.p(p.pCandScript) {
+			c.CandKind = stream()
+			if c.CandKind == "webtransport" && c.EIO != 4 {
+				c.CandKind = ""
+				if wsOK {
+					c.CandKind = "websocket"
+				}
+			}
+			ut := o.UpgradeTimeoutMs
+			if ut == 0 {
+				ut = 10000
+			}
+			if c.CandKind != "" {
+				// same constraints as for the conformant upgrade: a client that may end up switching holds
+				// back its writes until the 100 ms check released its poll
+				if (c.EIO == 4 && pt < 250+8*c.LatencyMs) || (c.EIO != 4 && pi+pt-c.V3PingMs < 250+8*c.LatencyMs) {
+					c.CandKind = ""
+				}
+				if c.CandKind != "" && o.UpgradeTimeoutMs != 0 && o.UpgradeTimeoutMs < 300+8*c.LatencyMs {
+					o.UpgradeTimeoutMs = 1000
+					ut = 1000
+				}
+			}
+			if c.CandKind != "" {
+				c.Cand = genCandScript(g, ut)
+				c.CandAtMs = g.pick(0, 1, 10, 50, 100, 300)
+				if c.Upgrade != "" && g.p(p.pSecondCand) {
+					// two candidates around the same time
+					c.UpgradeAtMs = c.CandAtMs + g.pick(-5, 0, 1, 5, 20, 60, 150)
+					if c.UpgradeAtMs < 0 {
+						c.UpgradeAtMs = 0
+					}
+				} else {
+					c.Upgrade = ""
+					if g.p(0.6) {
+						dur := 0
+						for _, op := range c.Cand {
+							dur += op.WaitMs
+						}
+						c.Retry, c.RetryAtMs = true, c.CandAtMs+dur+g.pick(150, 300, 600)+12*c.LatencyMs
+						if dur < ut && g.p(0.5) {
+							c.RetryAtMs = c.CandAtMs + ut + g.pick(150, 400) + 12*c.LatencyMs
+						}
+						if c.RetryAtMs+700 > sc.HorizonMs {
+							sc.HorizonMs = c.RetryAtMs + 700 + g.rng(0, 500)
+						}
+					}
+				}
+			}
+		}
 		ns := g.rng(0, p.clientSends)
 		for k := 0; k < ns; k++ {
 			m := ClientMsg{AtMs: g.rng(0, sc.HorizonMs*3/4), ID: fmt.Sprintf("%s.u%d", c.Name, k), Size: g.size(&p), Binary: g.p(p.pBinary)}
@@ -457,4 +510,84 @@ func genClientFaults(g *G, p *profile, sc *Scenario, c *ClientSpec, pi, pt int) 
 			c.Faults = append(c.Faults, FaultSpec{AtMs: g.rng(0, h*4/5), Kind: kinds[g.IntN(len(kinds))]})
 		}
 	}
+}
+
+// genCandScript draws an upgrade candidate's script over the packet alphabet: unexpected first
+// packets, probes that are never followed up (upgrade timeout), repeated probes, a proper probe
+// followed by something else than 'upgrade', disconnects at every stage, and the conformant
+// sequence with unusual pauses.
+func genCandScript(g *G, upgradeTimeoutMs int) []CandOp {
+	var s []CandOp
+	other := func() CandOp {
+		switch g.IntN(7) {
+		case 0:
+			return CandOp{Op: "ping", Arg: g.picks("", "xyz", "probe2")}
+		case 1:
+			return CandOp{Op: "pong", Arg: g.picks("", "probe")}
+		case 2:
+			return CandOp{Op: "msg", Arg: fmt.Sprintf("cand-%d", g.IntN(100))}
+		case 3:
+			return CandOp{Op: "noop"}
+		case 4:
+			return CandOp{Op: "garbage", Arg: "zz"}
+		case 5:
+			return CandOp{Op: "closepkt"}
+		default:
+			return CandOp{Op: "upgrade"}
+		}
+	}
+	long := upgradeTimeoutMs + g.pick(50, 200)
+	if long > 3000 {
+		long = g.pick(400, 1500)
+	}
+	switch g.IntN(10) {
+	case 0: // unexpected first packet
+		s = append(s, other())
+	case 1: // silent candidate: the upgrade timeout has to clean up
+		s = append(s, CandOp{Op: "wait", WaitMs: long})
+	case 2: // probe, then silence
+		s = append(s, CandOp{Op: "probe"}, CandOp{Op: "waitpong"}, CandOp{Op: "wait", WaitMs: long})
+	case 3: // probe, then something else than upgrade
+		s = append(s, CandOp{Op: "probe"}, CandOp{Op: "waitpong"}, other())
+	case 4: // disconnect at some stage
+		if g.p(0.5) {
+			s = append(s, CandOp{Op: "probe"})
+			if g.p(0.5) {
+				s = append(s, CandOp{Op: "waitpong"})
+			}
+		}
+		s = append(s, CandOp{Op: "disconnect", WaitMs: g.pick(0, 1, 50, 150)})
+	case 5: // repeated probes, then the switch
+		n := g.rng(2, 4)
+		for i := 0; i < n; i++ {
+			s = append(s, CandOp{Op: "probe", WaitMs: g.pick(0, 0, 30, 120)})
+		}
+		for i := 0; i < n; i++ {
+			s = append(s, CandOp{Op: "waitpong"})
+		}
+		if g.p(0.7) {
+			s = append(s, CandOp{Op: "upgrade"})
+		} else {
+			s = append(s, CandOp{Op: "disconnect"})
+		}
+	case 6: // the conformant sequence with pauses (slow candidate)
+		s = append(s, CandOp{Op: "probe", WaitMs: g.pick(0, 20, 80, 250)}, CandOp{Op: "waitpong"}, CandOp{Op: "upgrade", WaitMs: g.pick(0, 50, 150, 400)})
+	default: // random walk over the alphabet
+		n := g.rng(1, 5)
+		for i := 0; i < n; i++ {
+			switch g.IntN(4) {
+			case 0:
+				s = append(s, CandOp{Op: "probe", WaitMs: g.pick(0, 0, 10, 100)})
+			case 1:
+				s = append(s, CandOp{Op: "waitpong"})
+			case 2:
+				s = append(s, CandOp{Op: "wait", WaitMs: g.pick(10, 100, 300)})
+			default:
+				o := other()
+				o.WaitMs = g.pick(0, 0, 10, 100)
+				s = append(s, o)
+			}
+		}
+	}
+	return s
 }
